@@ -5,7 +5,7 @@ from vv import sched, kit
 from vv.core import Result
 
 ID = 'C03'
-CASES = {'quick': 300, 'thorough': 5000}
+CASES = {'quick': 700, 'thorough': 50000}
 HANG_IS_VIOLATION = True
 RULE = ('Hypothesis draws 0..4 scripted processes (empty and all-quiet '
         'composites included) whose timestep and condition answers are scripts '
